@@ -125,6 +125,8 @@ def run(db, cx):
     prime_index_correction(db, cx)
     # 8 ------------------------------------------- a bin computed in floating point is bounded in integers
     float_bin_bounded(db, cx)
+    # 9 ------------------------------------------- the mean loss is bounded by the energy
+    mean_loss_bounded(db, cx)
 
 
 def lookup_in_range(db, cx):
@@ -315,3 +317,98 @@ def float_bin_bounded(db, cx):
                   why="(value - front) / delta rounds up to size-1 for a value one ulp below the last "
                       "knot; the callers then read knot size (past the table) - the bound on the "
                       "result is only a debug assertion")
+
+
+def mean_loss_bounded(db, cx):
+    """C14.9: every value calc_mean_energy_loss can return is bounded by the particle energy by
+    construction: the pre-step energy itself, `pre_step_energy - E(range - step)` from the inverse
+    range table, or the linear estimate step*dE/dx - the latter only on the edge where that very
+    estimate was compared with (a fraction of) the pre-step energy."""
+    fs = db.get(C + "calc_mean_energy_loss")
+    cx.require(fs, "anchor calc_mean_energy_loss not found")
+    PE = C + "ParticleTrackView::energy"
+    for f in fs:
+        evars = set(d["var"] for (_b, _i, d) in f.events("def") if PE in d.get("calls", []))
+        for (rb, ri, rev) in f.events("return"):
+            kinds = []
+            srcs = []
+            if rev.get("calls"):
+                srcs.append((rb, ri, rev))
+            for v in local_refs(rev.get("refs", [])):
+                if v in evars and not rev.get("calls"):
+                    kinds.append(("energy", None))
+                    continue
+                for (db_, di_, d) in f.reaching_defs(v, (rb, ri)):
+                    srcs.append((db_, di_, d))
+            for (sb, si, d) in srcs:
+                calls = d.get("calls", [])
+                refs = set(local_refs(d.get("refs", [])))
+                if any(c.endswith("InverseRangeCalculator::operator()") for c in calls) and refs & evars \
+                        and "-" in (d.get("rhs") or d.get("t") or ""):
+                    kinds.append(("range-table", None))
+                elif any(c.endswith("XsCalculator::operator()") or c.endswith("EnergyLossCalculator::operator()")
+                         for c in calls):
+                    kinds.append(("linear", (sb, si, d)))
+                elif PE in calls:
+                    kinds.append(("energy", None))
+                elif d.get("kind") == "decl" and not d.get("rhs"):
+                    continue          # default-constructed, overwritten before use on other paths
+                else:
+                    kinds.append(("other", (sb, si, d)))
+            ok = bool(kinds)
+            why_not = ""
+            for k, src in kinds:
+                if k in ("energy", "range-table"):
+                    continue
+                if k == "other":
+                    ok = False
+                    why_not = "value of unknown provenance: %s" % (src[2].get("rhs") or src[2].get("t"))
+                    continue
+                sb, si, d = src
+                var = d.get("var")
+                guarded = False
+                for br in f.branch_blocks(lambda c, _b: c.get("op") in (">=", ">", "<", "<=")):
+                    c = f.blocks[br]["cond"]
+                    l, r = set(local_refs(c.get("lrefs", []))), set(local_refs(c.get("rrefs", [])))
+                    if var is None or not ((var in l and r & evars) or (var in r and l & evars)):
+                        continue
+                    small_first = (c["op"] in ("<", "<=")) == (var in l)
+                    e_small = f.cond_polarity_edge(br, small_first)
+                    # the estimate may reach the return only through the edge on which it is small:
+                    # walk forward from its definition, stop at redefinitions, never take that edge
+                    seen = set()
+                    work = [(sb, si + 1)]
+                    leak = False
+                    while work and not leak:
+                        cb, ci = work.pop()
+                        evs = f.blocks[cb]["ev"]
+                        stop = False
+                        for k in range(ci, len(evs)):
+                            if (cb, k) == (rb, ri):
+                                leak = True
+                                stop = True
+                                break
+                            e2 = evs[k]
+                            if e2["e"] == "def" and e2.get("var") == var:
+                                stop = True
+                                break
+                        if stop:
+                            continue
+                        for ix, sx in enumerate(f.blocks[cb]["succ"]):
+                            if sx is None or (cb == br and ix == e_small):
+                                continue
+                            if sx not in seen:
+                                seen.add(sx)
+                                work.append((sx, 0))
+                    if not leak and f.reach([f.blocks[br]["succ"][e_small]]) & {rb}:
+                        guarded = True
+                if not guarded:
+                    ok = False
+                    why_not = "the linear estimate `%s` reaches `return` without having been compared " \
+                              "with the particle energy" % (d.get("rhs") or d.get("t"))
+            cx.ob("C14.9-mean-loss-bounded", "calc_mean_energy_loss return @%s is bounded by the particle "
+                  "energy by construction" % short(rev["loc"]).split(":")[-1], ok,
+                  why_not or ", ".join(sorted(set(k for k, _s in kinds))), short(rev["loc"]),
+                  why="step * dE/dx is not bounded by the energy (dE/dx rises with energy inside a "
+                      "table and the range is extrapolated below it): unless that estimate itself is "
+                      "tested against the energy, the mean loss can exceed what the particle has")
